@@ -10,7 +10,7 @@ def one(d):
     m['caught_by']='%s (%s)'%(check,', '.join(k.split(':',1)[1] for k in keys[:4])) if keys else 'NOT CAUGHT'
     m['check_command']='bin/check %s quick --patch seeded/%s/patch.diff'%(check,name)
     m['needs_to_manifest']='see NOTES.md (written by the seeding agent)'
-    m['round']={'b':2,'c':3,'d':4,'e':5,'f':6,'g':7,'h':8,'i':9,'j':10,'k':11,'l':12}[sys.argv[1]]
+    m['round']={'b':2,'c':3,'d':4,'e':5,'f':6,'g':7,'h':8,'i':9,'j':10,'k':11,'l':12,'m':13}[sys.argv[1]]
     json.dump(m,open(d+'/meta.json','w'),indent=1)
     return name,m['caught_by'][:150]
 ds=sorted(glob.glob('/verif/seeded/C??'+sys.argv[1]))
